@@ -4,7 +4,7 @@ at its call sites (the spelling the normaliser restores).  Run after a `fix:` co
 import ast, json, os, sys
 sys.path.insert(0, os.path.dirname(os.path.dirname(os.path.abspath(__file__))))
 from sa.model import SourceSet
-from sa.normalize import call_styles
+from sa.normalize import call_styles, function_locals
 
 src = SourceSet.load("/repo")
 trees = {rel: ast.parse(t) for rel, t in src.files.items()}
@@ -31,6 +31,15 @@ for rel, tree in sorted(trees.items()):
     collect(rel, tree.body)
 path = os.path.join(os.path.dirname(os.path.dirname(os.path.abspath(__file__))), "sa", "baseline_functions.json")
 old = json.load(open(path))
-out = {"note": old.get("note", ""), "functions": sorted(set(funcs)), "call_styles": call_styles(trees)}
+locs = {}
+for rel, tree in sorted(trees.items()):
+    for node in tree.body:
+        if isinstance(node, ast.FunctionDef):
+            locs[f"{rel}::{node.name}"] = sorted(function_locals(node))
+        elif isinstance(node, ast.ClassDef):
+            for s in node.body:
+                if isinstance(s, ast.FunctionDef):
+                    locs[f"{rel}::{node.name}.{s.name}"] = sorted(function_locals(s))
+out = {"note": old.get("note", ""), "functions": sorted(set(funcs)), "call_styles": call_styles(trees), "locals": locs}
 json.dump(out, open(path, "w"), indent=0)
 print(len(out["functions"]), "functions,", len(out["call_styles"]), "call-style entries;", "functions changed" if set(old.get("functions", [])) != set(out["functions"]) else "functions unchanged")
